@@ -212,7 +212,7 @@ T.update(parse_all({'sort_coll': 'sort(($a, $b, $c), $coll)', 'sort_coll_key': '
 LET = ('a', 'A', 'b', 'B')
 
 
-@ob(budget=120, bound='three one-letter strings from {a, A, b, B} (chosen by the solver), collation: code point or html-ascii-case-insensitive: sort is a stable ordered permutation under the collation, with and without a key function',
+@ob(budget=300, bound='three one-letter strings from {a, A, b, B} (chosen by the solver), collation: code point or html-ascii-case-insensitive: sort is a stable ordered permutation under the collation, with and without a key function',
     funcs=[F30 + ':sort', 'elementpath/compare.py:get_key_function', 'elementpath/collations.py'])
 def sort_honours_collation(i: int, j: int, k: int, ci: bool) -> bool:
     """
